@@ -25,6 +25,16 @@ pub fn labels(m: &TdModel) -> Vec<&'static str> {
     if !deps.is_empty() {
         out.push("has-dependencies");
     }
+    // hashed struct types (primary or reachable) by member count
+    for s in std::iter::once(&m.primary).chain(deps.iter()) {
+        match g.get(s).map(|d| d.members.len()) {
+            Some(16) => out.push("hashed-struct-with-16-members"),
+            Some(15 | 17) => out.push("hashed-struct-with-15-or-17-members"),
+            Some(31..=33) => out.push("hashed-struct-with-31..33-members"),
+            Some(n) if n >= 7 => out.push("hashed-struct-with>=7-members"),
+            _ => {}
+        }
+    }
     // reference multiset over the reachable graph
     let mut refs_total = 0usize;
     let mut reach: Vec<&str> = vec![&m.primary];
@@ -156,6 +166,79 @@ fn judge(c: &TdCase, cls: &mut Classifier) -> Verdict {
     Ok(())
 }
 
+/// The same documents through the executable: `hash typeddata` (signing digest), `hash typeddata --message-hash`
+/// (hashStruct of the message) and `sign typeddata` (a signature over exactly that digest by the reference key).
+fn judge_cli(c: &TdCase, cls: &mut Classifier) -> Verdict {
+    use crate::cli::Invocation;
+    let m = &c.model;
+    let Some((_, mh, digest)) = td::expected(m) else {
+        return fail("conforming model", "reference cannot hash the model", "harness: generated model does not conform to its own types");
+    };
+    let root = crate::cli::global_root();
+    let file = crate::cli::temp_file(&root, c.doc.as_bytes());
+    let f = file.to_string_lossy().to_string();
+    let pick = crate::engine::stable_hash(&c.doc);
+    let phrase = crate::refimpl::bip39::encode_phrase(&[0x5au8; 16]);
+    let mut runs: Vec<(Invocation, String, &str)> = vec![];
+    let hash_inv = if pick % 2 == 0 { Invocation::new(&["hash", "typeddata", &f]) } else { Invocation::new(&["hash", "typeddata", "-"]).stdin(c.doc.as_bytes()) };
+    runs.push((hash_inv, format!("0x{}\n", hex_lower(&digest)), "signing digest"));
+    let mh_inv = if pick % 4 < 2 { Invocation::new(&["hash", "typeddata", "--message-hash", "-"]).stdin(c.doc.as_bytes()) } else { Invocation::new(&["hash", "typeddata", &f, "-m"]) };
+    runs.push((mh_inv, format!("0x{}\n", hex_lower(&mh)), "message hash"));
+    if pick % 5 == 0 {
+        static KEY: std::sync::OnceLock<[u8; 32]> = std::sync::OnceLock::new();
+        let key = KEY.get_or_init(|| {
+            let seed = crate::refimpl::bip39::seed_from_normalised(&crate::refimpl::bip39::encode_phrase(&[0x5au8; 16]), "");
+            crate::refimpl::bip32::derive(&seed, &crate::refimpl::bip32::default_path(0)).expect("reference key")
+        });
+        // C08 only asks that what is signed is the digest: the printed signature must recover the reference
+        // key's public point from exactly this digest (which nonce was used is C05's subject)
+        let inv = Invocation::new(&["sign", "--mnemonic", &phrase, "typeddata", &f]);
+        if let Some(out) = crate::cli::run_global(&inv) {
+            if out.timed_out {
+                cls.label("cli-timed-out");
+            } else {
+                let text = out.stdout_str();
+                let bytes = text.strip_suffix('\n').and_then(|l| l.strip_prefix("0x")).and_then(crate::refimpl::unhex).filter(|b| b.len() == 65 && (b[64] == 27 || b[64] == 28));
+                let recovered = bytes.as_ref().and_then(|b| {
+                    let r: [u8; 32] = b[..32].try_into().unwrap();
+                    let s: [u8; 32] = b[32..64].try_into().unwrap();
+                    crate::refimpl::secp::ecdsa_recover(&digest, &r, &s, b[64] == 28)
+                });
+                let public = crate::refimpl::secp::mul_g(key);
+                if !out.ok() || recovered.is_none() || recovered.map(|p| crate::refimpl::secp::uncompressed(&p)) != public.map(|p| crate::refimpl::secp::uncompressed(&p)) {
+                    let _ = std::fs::remove_file(&file);
+                    return fail(
+                        format!("a 65-byte signature that recovers the key of m/44'/60'/0'/0/0 from digest 0x{}", hex_lower(&digest)),
+                        out.describe(),
+                        format!("`hdwallet {}`: what is signed must be the EIP-712 signing digest of {}", inv.args.join(" "), crate::engine::truncate(&c.doc, 900)),
+                    );
+                }
+                cls.label("cli-signature-recovers");
+            }
+        }
+    }
+    let mut verdict = Ok(());
+    for (inv, want, what) in runs {
+        let Some(out) = crate::cli::run_global(&inv) else {
+            verdict = fail("cli", "not configured", "CLI not available");
+            break;
+        };
+        if out.timed_out {
+            cls.label("cli-timed-out");
+            break;
+        }
+        if !out.ok() || !out.stdout_str().eq_ignore_ascii_case(&want) {
+            verdict = fail(want, out.describe(), format!("`hdwallet {}`: {what} of {}", inv.args.join(" "), crate::engine::truncate(&c.doc, 900)));
+            break;
+        }
+    }
+    let _ = std::fs::remove_file(file);
+    verdict?;
+    cls.label("cli-sample");
+    cls.nontrivial(&(c.doc.as_str(), "cli"));
+    Ok(())
+}
+
 pub fn gen_case(tape: Vec<u8>) -> TdCase {
     td::gen_case(&mut U::new(&tape))
 }
@@ -194,7 +277,7 @@ fn judge_type_string(c: &TypeString, cls: &mut Classifier) -> Verdict {
 }
 
 pub fn run(ctx: &mut Ctx) {
-    ctx.rule = "a type graph (1..6 structs, names chosen to stress ordering and the type grammar, 0..6 members, member types atomic | struct reference | array up to 3 dimensions fixed 0..3 or dynamic; cycles only through dynamic/empty arrays; shared, repeated, diamond, self- and mutually-recursive references) and a conforming value tree generated together from a byte tape; integers at range boundaries in every accepted spelling; one of the 31 well-formed domains; any struct (occasionally EIP712Domain) as primaryType; JSON keys shuffled. Oracle: EIP-712 reference computed from the AST (dependency set = reachable minus primary, name order, once each); domain separator, message hash and signing digest must match; with the hook, encodeType of every struct must equal the reference string and the parse/print image of {100 atoms} x {suffix lists up to length 3 over [],[0],[1],[2],[10]} must be the identity (15600 strings, exhaustive). Non-trivial: primary type reaches another struct or contains an array; distinct by document.".into();
+    ctx.rule = "a type graph (1..6 structs, names chosen to stress ordering and the type grammar, 0..6 members - one graph in eight has a wide struct of 7..65 members with the counts 15/16/17, 31/32/33, 63/64/65 over-represented -, member types atomic | struct reference | array up to 3 dimensions fixed 0..3 or dynamic; cycles only through dynamic/empty arrays; shared, repeated, diamond, self- and mutually-recursive references) and a conforming value tree generated together from a byte tape; integers at range boundaries in every accepted spelling; one of the 31 well-formed domains; any struct (occasionally EIP712Domain) as primaryType; JSON keys shuffled. Oracle: EIP-712 reference computed from the AST (dependency set = reachable minus primary, name order, once each); domain separator, message hash and signing digest must match; with the hook, encodeType of every struct must equal the reference string and the parse/print image of {100 atoms} x {suffix lists up to length 3 over [],[0],[1],[2],[10]} must be the identity (15600 strings, exhaustive). CLI sample: the same generator through `hdwallet hash typeddata` (file/stdin), `--message-hash`/`-m` and (one in five) `sign typeddata` must print the reference digest / message hash / RFC 6979 signature of the reference key. Non-trivial: primary type reaches another struct or contains an array; distinct by document.".into();
     ctx.assumptions = vec!["sha3 Keccak".into(), "struct and member names are ASCII identifiers (sort orders agree)".into()];
     ctx.replay_known_and_regressions(&replay);
     let n = ctx.tier.pick(60_000, 1_000_000);
@@ -234,6 +317,16 @@ pub fn run(ctx: &mut Ctx) {
         strings.push(TypeString { s: s.to_string() });
     }
     ctx.run_cases("type-strings", &strings, judge_type_string);
+    if crate::cli::global_cli().is_some() {
+        ctx.shrink_iters = 150;
+        ctx.run_prop("cli", ctx.tier.pick(600, 20_000), || crate::gen::tape(1500).prop_map(gen_case), judge_cli);
+        if ctx.cls.count("cli-timed-out") > 0 {
+            ctx.inconclusive("CLI watchdog expired");
+        }
+        ctx.floor_abs("cli-sample", ctx.tier.pick(500, 15_000));
+    } else {
+        ctx.inconclusive("CLI executable not available for the CLI sample");
+    }
     ctx.exhaustive_parts.push("member type grammar: 100 atoms x all suffix lists of length <= 3 over 5 suffixes".into());
 
     crate::fuzz::run_for(ctx);
@@ -246,12 +339,15 @@ pub fn run(ctx: &mut Ctx) {
     ctx.floor("negative-int", total, 0.05);
     ctx.floor("short-bytes", total, 0.10);
     ctx.floor("depth>=3", total, 0.05);
+    ctx.floor("hashed-struct-with-16-members", total, 0.003);
+    ctx.floor("hashed-struct-with-31..33-members", total, 0.005);
 }
 
 pub fn replay(sub: &str, case: &Value) -> Option<Verdict> {
     match sub {
         "digest" => Some(replay_as::<TdCase>(case, judge)),
         "type-strings" => Some(replay_as::<TypeString>(case, judge_type_string)),
+        "cli" => Some(replay_as::<TdCase>(case, judge_cli)),
         _ => None,
     }
 }
